@@ -14,7 +14,7 @@ PROP = "C19"
 # generators
 # ---------------------------------------------------------------------------------------------
 
-def gen_graph(rng, n_dom=None, n_img=None, square=False, symmetric=False, max_n=12):
+def gen_graph(rng, n_dom=None, n_img=None, square=False, symmetric=False, max_n=12, multi=False):
     n_dom = rng.choice([0, 1, 1, 2, 3, 4, 5, 6, 8, max_n]) if n_dom is None else n_dom
     n_img = n_dom if square else (rng.choice([0, 1, 2, 3, 4, 5, 7, max_n]) if n_img is None else n_img)
     style = rng.choice(["empty", "sparse", "sparse", "dense", "dups", "components"])
@@ -51,6 +51,8 @@ def gen_graph(rng, n_dom=None, n_img=None, square=False, symmetric=False, max_n=
                 rng.shuffle(x)
         if rng.random() < 0.3:  # self loops / diagonal like in matrix graphs
             adj = [x + [i] for i, x in enumerate(adj)]
+        if multi and rng.random() < 0.3:  # repeated adjacencies (non-injective render), symmetric as a relation
+            adj = [x * rng.choice([1, 2, 3]) for x in adj]
     return n_img, adj
 
 
@@ -116,7 +118,7 @@ def gen_cases(rng, count):
             else:
                 cases.append("colororder %s %s" % (fmt_graph(n_img, adj), fmt_list(rand_perm(rng, len(adj)))))
         else:
-            n_img, adj = gen_graph(rng, square=True, symmetric=True, max_n=14)
+            n_img, adj = gen_graph(rng, square=True, symmetric=True, max_n=14, multi=True)
             if len(adj) == 0:
                 n_img, adj = 1, [[]]
             cases.append("cm %d %d %d %s" % (rng.randrange(2), rng.randrange(3), rng.randrange(3), fmt_graph(n_img, adj)))
@@ -132,6 +134,9 @@ CORPUS = [
     "render 3 0 3 0 0 0",
     "render2 1 2 2 0 0 3 2 0 0",
     "cm 1 1 1 6 6 2 1 2 1 0 1 0 2 4 5 1 3 1 3",
+    # minimum_degree root with repeated adjacencies (degree > number of nodes)
+    "cm 0 1 0 1 1 2 0 0",
+    "cm 1 1 1 2 2 3 1 1 1 3 0 0 0",
 ]
 
 
